@@ -469,7 +469,7 @@ impl C16 {
 impl Check for C16 {
     fn id(&self) -> &'static str { "C16" }
     fn rule(&self) -> String {
-        "filters: all insertion sequences of length <= 2 (quick; 2 970) / <= 3 (thorough; 160 434) over 18 filter kinds x {insert, insert_nand, insert_nor} with sampled values and regions, plus sampled longer sequences; the request recorded by the transport is parsed by a reference parser of the Master Server Query Protocol grammar and (region, seed, plain, NAND, NOR groups) must equal a reference model of the builder (later insert of a kind replaces the earlier). paging: histories of 1-6 pages x 1-230 entries ending by a terminator as last entry / only entry / an empty page / never: returned list = concatenation without the terminator, request k+1 seeded with the last address of page k, nothing requested after the terminator, silence before a terminator is a receive error; 2-3 complete queries on one service instance each start again from the 0.0.0.0:0 seed. non-trivial = parse + comparison passed; distinct by request bytes".into()
+        "filters: all insertion sequences of length <= 2 (quick; 2 970) / <= 3 (thorough; 160 434) over 18 filter kinds x {insert, insert_nand, insert_nor} with sampled values and regions, plus sampled longer sequences (among them groups of 8-18 different kinds); the request recorded by the transport is parsed by a reference parser of the Master Server Query Protocol grammar and (region, seed, plain, NAND, NOR groups) must equal a reference model of the builder (later insert of a kind replaces the earlier). paging: histories of 1-6 pages x 1-230 entries ending by a terminator as last entry / only entry / an empty page / never: returned list = concatenation without the terminator, request k+1 seeded with the last address of page k, nothing requested after the terminator, silence before a terminator is a receive error; 2-3 complete queries on one service instance each start again from the 0.0.0.0:0 seed. non-trivial = parse + comparison passed; distinct by request bytes".into()
     }
     fn assumptions(&self) -> Vec<String> { vec!["filter keys and grammar as in DESIGN.md Appendix A.9".into(), "domain: string values without backslash/NUL, tags without comma; HasTags(vec![]) and a terminator in the middle of a page are observe-only".into()] }
     fn total_cases(&self, tier: Tier) -> u64 { self.n_seq(tier) + self.n_random(tier) }
@@ -491,8 +491,24 @@ impl Check for C16 {
             let s = seq_from(code, 3);
             self.filter_case(cx, &s);
         } else if (idx - self.n_seq(cx.tier)) % 2 == 0 {
-            let len = cx.rng.usize(4, 12);
-            let s: Vec<(usize, usize)> = (0 .. len).map(|_| (cx.rng.below(18) as usize, cx.rng.below(3) as usize)).collect();
+            let s: Vec<(usize, usize)> = if cx.rng.chance(1, 4) {
+                // a crowded group: 8-18 different kinds in one of the three groups (its announced size then has two
+                // digits), a few more elsewhere
+                let g = cx.rng.below(3) as usize;
+                let mut kinds: Vec<usize> = (0 .. 18).collect();
+                cx.rng.shuffle(&mut kinds);
+                let n = cx.rng.usize(8, 18);
+                let mut v: Vec<(usize, usize)> = kinds[.. n].iter().map(|k| (*k, g)).collect();
+                for _ in 0 .. cx.rng.usize(0, 4) {
+                    v.push((cx.rng.below(18) as usize, cx.rng.below(3) as usize));
+                }
+                cx.rng.shuffle(&mut v);
+                cx.count("seq-crowded-group");
+                v
+            } else {
+                let len = cx.rng.usize(4, 12);
+                (0 .. len).map(|_| (cx.rng.below(18) as usize, cx.rng.below(3) as usize)).collect()
+            };
             cx.count("seq-longer");
             self.filter_case(cx, &s);
         } else if (idx - self.n_seq(cx.tier)) % 8 == 7 {
